@@ -26,6 +26,7 @@ HANDLERS = ["create", "create_key_pair", "delete_attribute", "register", "derive
             "discover_versions", "encrypt", "decrypt", "signature_verify", "set_attribute",
             "modify_attribute", "mac", "sign"]
 from vf.contracts import lookup as _lookup      # noqa: E402
+import contracts.c_attributes                   # noqa: E402,F401  (handlers that have their own contract)
 for h in HANDLERS:
     if _lookup(E + "_process_" + h) is None:
         c = contract(E + "_process_" + h).props('C13')
